@@ -12,6 +12,7 @@ import (
 	"strings"
 	"sync"
 	"time"
+	"unicode/utf8"
 
 	"github.com/google/gopacket/layers"
 	"github.com/spf13/cobra"
@@ -39,6 +40,7 @@ var (
 	errRateLimit     = errors.New("invalid ratelimit")
 	errARPCacheStdin = errors.New("ARP cache is expected from file or stdin pipe")
 	errIPFlags       = errors.New("invalid ip flags")
+	errPayload       = errors.New("invalid payload: not a UTF-8 string")
 	errNoDstIP       = errors.New("requires one ip subnet argument or file with ip/port pairs")
 	errARPStdin      = errors.New("ARP cache and IP file can not be read from stdin at the same time")
 )
@@ -570,6 +572,10 @@ func parseRateLimit(rateLimit string) (rateCount int, rateWindow time.Duration, 
 }
 
 func parsePacketPayload(payload string) (result []byte, err error) {
+	if !utf8.ValidString(payload) {
+		// strconv.Unquote would replace such bytes with U+FFFD; use \x escapes for raw bytes
+		return nil, errPayload
+	}
 	var unquoted string
 	if unquoted, err = strconv.Unquote(`"` + payload + `"`); err != nil {
 		return
